@@ -82,6 +82,13 @@ let eval (op : string) (args : sx list) : sx list =
   | "feature_filter", [p; L fs] ->
     [A "ok"; L (List.map sx_of_feature (feature_filter frag_match (filt_of_sx p) (List.map feature_of_sx fs)))]
   | "repair", [L fs] -> [A "ok"; L (List.map sx_of_feature (repair (List.map feature_of_sx fs)))]
+  | "alias_bytes", [op; buf; hl; gl; sp] ->
+    let (b, r) = alias_bytes (z_of_sx op) (bytes_of_sx buf) (z_of_sx hl) (z_of_sx gl) (bool_of_sx sp) in
+    [A "ok"; sx_of_bytes b; sx_of_bytes r]
+  | "alias_table", [n; sp; i] ->
+    let (b, r) = alias_table (z_of_sx n) (z_of_sx sp) (z_of_sx i) in
+    [A "ok"; L (List.map sx_of_z b); L (List.map sx_of_z r)]
+  | "alias", _ -> [A "same"]
   | _ -> [A "unknown-op"]
 
 let () =
